@@ -21,6 +21,7 @@ def recv_field(fl, call):
 def run(db, chk):
     marker_freshness_rule(db, chk)
     slot_assignment_rules(db, chk)
+    slot_sizing_rule(db, chk)
     fns = [f for f in db.by_crate["gix_odb"] if f.file == FILE and f.kind != "promoted"]
     chk.floor("functions in load_index.rs", len(fns), 25)
     n_store = n_repl = n_atomic = 0
@@ -220,3 +221,21 @@ def slot_assignment_rules(db, chk):
     chk.ob("slot-removal-changes-generation", "consolidate_with_disk_state", dep,
            "slots of deleted packs are emptied without a generation change: a handle that still holds the old index asks load_pack for that slot and hits unreachable!(), or - once the slot was refilled - is handed a different pack and returns another object's bytes",
            "%s:%d" % (cw.file, cw.line), key="slot-removal-generation")
+
+
+def slot_sizing_rule(db, chk):
+    """the slot map never grows, and every index file needs its own slot once the multi-pack-index that covers it is gone (git removes it when
+    `repack -d` drops one of its packs).  The count that sizes the slot map (Slots::AsNeededByDiskState) must therefore see every .idx file: the
+    call of collect_indices_and_mtime_sorted_by_size in Store::at_opts passes `None` as multi-pack-index hash (with Some(hash) that function
+    replaces all covered indices by one entry)."""
+    f = db.one(r"^gix_odb::store_impls::dynamic::init::<impl gix_odb::Store>::at_opts$")
+    fl = Flow(f)
+    cs = f.calls_to(r"::collect_indices_and_mtime_sorted_by_size$")
+    chk.floor("Store::at_opts: index count for slot sizing", len(cs), 1)
+    for c in cs:
+        r = fl.roots(c.args[2], stop_named=False)
+        none_only = bool(r) and all((x[0] == "const" and isinstance(x[1], str) and x[1].endswith("::None")) for x in r) or ("p" not in c.args[2] and c.args[2].get("variant") == "None")
+        vals = sorted({str(x[:2]) for x in r})[:3]
+        chk.ob("slot-count-sees-every-index", "at_opts collect_indices@%d" % c.line, none_only,
+               "the slot map is sized from a count in which a multi-pack-index stands for all the indices it covers (%s): when git deletes the multi-pack-index each of them needs a slot and refresh fails with InsufficientSlots for good" % ", ".join(vals),
+               c.where(), key="slot-sizing|at_opts")
